@@ -4,6 +4,7 @@ import (
 	"bufio"
 	"encoding/json"
 	"fmt"
+	"io"
 	"os"
 	"runtime"
 	"strconv"
@@ -244,12 +245,20 @@ func raceLogSize() int64 {
 // simulated goroutines under the simulator's serialization, which the detector cannot see;
 // those reports are dropped. simrt frames (MapKeys, lock emulation) are transparent.
 func raceLogSince(off int64) string {
-	b, err := os.ReadFile(raceLogPath())
-	if err != nil || int64(len(b)) <= off {
+	f, err := os.Open(raceLogPath())
+	if err != nil {
+		return ""
+	}
+	defer f.Close()
+	if _, err := f.Seek(off, io.SeekStart); err != nil {
+		return ""
+	}
+	b, err := io.ReadAll(io.LimitReader(f, 64<<20))
+	if err != nil || len(b) == 0 {
 		return ""
 	}
 	var keep []string
-	for _, rep := range strings.Split(string(b[off:]), "==================") {
+	for _, rep := range strings.Split(string(b), "==================") {
 		if !strings.Contains(rep, "WARNING: DATA RACE") {
 			continue
 		}
